@@ -2444,6 +2444,56 @@ impl<'s> Semantics<'s> {
         Ok(())
     }
 
+    /// MOVSD with a register operand is the SSE2 scalar double-precision move, which shares
+    /// capstone's instruction id with the string instruction MOVSD (both operands in memory).
+    pub fn is_sse_movsd(&self) -> Result<bool, Error> {
+        let detail = self.details()?;
+        Ok(detail
+            .operands
+            .iter()
+            .take(detail.op_count as usize)
+            .any(|operand| operand.type_ == x86_op_type::X86_OP_REG))
+    }
+
+    /// The SSE2 MOVSD: moves the low quadword. A load from memory clears the high quadword
+    /// of the destination register, a register to register move keeps it.
+    pub fn movsd_sse(&self, control_flow_graph: &mut ControlFlowGraph) -> Result<(), Error> {
+        let detail = self.details()?;
+
+        let block_index = {
+            let block = control_flow_graph.new_block()?;
+
+            let src = self.operand_load(block, &detail.operands[1])?;
+
+            let value = if detail.operands[0].type_ != x86_op_type::X86_OP_REG {
+                // movsd m64, xmm
+                Expr::trun(64, src)?
+            } else if src.bits() == 64 {
+                // movsd xmm, m64
+                Expr::zext(128, src)?
+            } else {
+                // movsd xmm, xmm
+                let dst = self.operand_load(block, &detail.operands[0])?;
+                Expr::or(
+                    Expr::and(
+                        dst,
+                        Expr::shl(expr_const(0xffff_ffff_ffff_ffff, 128), expr_const(64, 128))?,
+                    )?,
+                    Expr::zext(128, Expr::trun(64, src)?)?,
+                )?
+            };
+
+            self.operand_store(block, &detail.operands[0], value)?;
+
+            block.index()
+        };
+
+        control_flow_graph.set_entry(block_index)?;
+        control_flow_graph.set_exit(block_index)?;
+
+        Ok(())
+    }
+
     pub fn movsx(&self, control_flow_graph: &mut ControlFlowGraph) -> Result<(), Error> {
         let detail = self.details()?;
 
